@@ -158,7 +158,10 @@ type UnionType struct {
 
 func fargs(ft FuncType) []FType {
 	l := slice.Length(ft.Targets)
-	return frt.Pipe(ft.Targets, (func(_r0 []FType) []FType { return slice.Take((l - 1), _r0) }))
+	return frt.Pipe(ft.Targets, (func() func(_r0 []FType) []FType {
+		_p0 := (l - 1)
+		return func(_r0 []FType) []FType { return slice.Take(_p0, _r0) }
+	})())
 }
 
 func freturn(ft FuncType) FType {
@@ -226,7 +229,10 @@ func fpToGo(tToGo func(FType) string, pt ParamdType) string {
 	return frt.IfElse(slice.IsEmpty(pt.Targs), (func() string {
 		return pt.Name
 	}), (func() string {
-		return frt.Pipe(frt.Pipe(slice.Map(tToGo, pt.Targs), (func(_r0 []string) string { return strings.Concat(", ", _r0) })), (func(_r0 string) string { return encloseWith((pt.Name + "["), "]", _r0) }))
+		return frt.Pipe(frt.Pipe(slice.Map(tToGo, pt.Targs), (func(_r0 []string) string { return strings.Concat(", ", _r0) })), (func() func(_r0 string) string {
+			_p0 := (pt.Name + "[")
+			return func(_r0 string) string { return encloseWith(_p0, "]", _r0) }
+		})())
 	}))
 }
 
